@@ -32,15 +32,18 @@ RULE = (
     "pool member with its literals replaced by equal values of another type (relations that compare equal without "
     "meaning the same); rows are compared type-sensitively, every later execution of a member must repeat its first, "
     "and at the end up to 8 executed members are rebuilt and executed on their own (fresh engines, expression objects "
-    "and database): the rows must be those seen in the middle of the history. "
+    "and database): the rows must be those seen in the middle of the history.  'execute_native' steps run "
+    "iteration.Engine.execute directly (twice, ordered and type-sensitive comparison, and against the member's first "
+    "native execution) on members that live in iteration engines only, including transfers between iteration "
+    "engines and user-defined marker relations. "
 )
 ASSUMPTIONS = [
     "materializations and leaves are explicitly named (auto-generated names are unique per call by design)",
     "fingerprints observe public attributes only; Materialization payload attachment is C10's subject and excluded",
 ]
-MIN_OBS = {"steps_executed": 5000, "lookalikes_built": 300, "isolation_replays": 1000, "fingerprint_sweeps": 5000, "rebuild_comparisons": 300, "double_compilations": 300, "double_executions": 300, "hash_checks": 3000}
+MIN_OBS = {"steps_executed": 5000, "native_double_executions": 300, "lookalikes_built": 300, "isolation_replays": 1000, "fingerprint_sweeps": 5000, "rebuild_comparisons": 300, "double_compilations": 300, "double_executions": 300, "hash_checks": 3000}
 CASE_TIMEOUT = 180
-STEP_KINDS = ["factory", "factory", "factory", "binary", "compile", "execute", "execute", "process", "diagnose", "lookalike"]
+STEP_KINDS = ["factory", "factory", "factory", "binary", "compile", "execute", "execute", "execute_native", "process", "diagnose", "lookalike"]
 
 
 def budget(tier):
@@ -105,7 +108,7 @@ def run_case(case):
             what = f"{kind} on {model.show(ent['prog'])}"
             try:
                 if kind == "factory":
-                    op = rng.choice(["calc", "proj", "sel", "dedup", "sort", "slice", "mat", "xfer"])
+                    op = rng.choice(["calc", "proj", "sel", "dedup", "sort", "slice", "mat", "xfer", "sort", "mark"])
                     g.cfg.engines = c03.ENG
                     st = g.unary((ent["prog"], ent["cols"], ent["eng"]), op)
                     if st is None:
@@ -190,6 +193,19 @@ def run_case(case):
                             out["violations"].append({"kind": "later_execution_differs_from_first", "detail": f"{what}: {short(r1, 200)} vs first {short(ent['rows'], 200)}"})
                         ent.setdefault("rows", tcanon(r1))
                         ent["deterministic"] = True
+                elif kind == "execute_native":
+                    # iteration.Engine.execute on its own (it handles transfers between iteration
+                    # engines and any marker relation without a Processor)
+                    if any(str(n.engine).startswith("sql") for n in interp.walk(ent["rel"])):
+                        continue
+                    n1 = names_rows(ent["rel"].engine.execute(ent["rel"]))
+                    n2 = names_rows(ent["rel"].engine.execute(ent["rel"]))
+                    c["native_double_executions"] = c.get("native_double_executions", 0) + 1
+                    if tlist(n1) != tlist(n2):
+                        out["violations"].append({"kind": "repeated_execution_differs", "detail": f"{what}: {short(n1, 200)} vs {short(n2, 200)}"})
+                    if "native_rows" in ent and ent["native_rows"] != tlist(n1):
+                        out["violations"].append({"kind": "later_execution_differs_from_first", "detail": f"{what}: {short(n1, 200)} vs first {short(ent['native_rows'], 200)}"})
+                    ent.setdefault("native_rows", tlist(n1))
                 elif kind == "process":
                     VProcessor(db).process(ent["rel"])
                 elif kind == "diagnose":
@@ -262,6 +278,11 @@ def run_case(case):
 def tcanon(rows):
     """Type-sensitive canonical multiset of rows (1, 1.0 and True are different values)."""
     return sorted(repr(sorted((k, type(v).__name__, repr(v)) for k, v in r.items())) for r in rows)
+
+
+def tlist(rows):
+    """Type-sensitive ordered form of a list of rows."""
+    return [repr(sorted((k, type(v).__name__, repr(v)) for k, v in r.items())) for r in rows]
 
 
 def strip_opts(prog):
